@@ -4,19 +4,19 @@ from rules import recovery as R
 
 
 def run(ctx):
-    D.ord4_atomic_store(ctx)
-    D.ord5_flush_order(ctx)
-    D.flw3_storage_errors_not_dropped(ctx)
-    D.flw5_replay_delete_split(ctx)
-    D.ord10_cursor_before_snapshot(ctx)
-    D.who1_who_may_remove(ctx)
-    D.who2_who_may_write(ctx, R.WHO2_TABLE)
-    R.flw6_recovery_ignores_staging(ctx)
-    R.pan1_awaited_jobs_report_failures(ctx)
-    D.ord11_files_before_catalogue_entry(ctx)
-    D.lit3_wal_file_names(ctx)
-    D.ord15_store_not_conditional_on_presence(ctx)
-    D.erv4_no_error_discarded(ctx)
+    ctx.run(D.ord4_atomic_store)
+    ctx.run(D.ord5_flush_order)
+    ctx.run(D.flw3_storage_errors_not_dropped)
+    ctx.run(D.flw5_replay_delete_split)
+    ctx.run(D.ord10_cursor_before_snapshot)
+    ctx.run(D.who1_who_may_remove)
+    ctx.run(D.who2_who_may_write, R.WHO2_TABLE)
+    ctx.run(R.flw6_recovery_ignores_staging)
+    ctx.run(R.pan1_awaited_jobs_report_failures)
+    ctx.run(D.ord11_files_before_catalogue_entry)
+    ctx.run(D.lit3_wal_file_names)
+    ctx.run(D.ord15_store_not_conditional_on_presence)
+    ctx.run(D.erv4_no_error_discarded)
     return ctx.finish(
         'Static analysis of compiler MIR: a crash between any two file effects leaves either the '
         'old catalogue with all its files and log segments or the new one, because (a) blobs are '
